@@ -72,7 +72,7 @@ def C49(ctx):
     q = ctx.quick
     envp = ctx.wpath("limenv.json")
     with ThreadPoolExecutor(max_workers=2) as ex:
-        fm = ex.submit(tlc, "Limits", "MCLimits", workers=4, consts={"K": 4 if q else 5}, timeout=3000)
+        fm = ex.submit(tlc, "Limits", "MCLimits", workers=4, consts={"K": 3 if q else 4}, timeout=3000)
         # environment footprint of the two transaction shapes, measured on the engine (parameters of the spec)
         rc, out = vh(BIN, ["limits", "calibrate"])
         env = json.loads(out.splitlines()[-1])
@@ -81,7 +81,7 @@ def C49(ctx):
         g = tlc("Limits", "GenLimits", workers=4, coverage=False, consts={"Tier": 1 if q else 2},
                 env={"LIMENV": envp}, timeout=3000)
         r = fm.result()
-    must_pass(r, "MCLimits", required=["DoCall", "DoRet", "DoEmit", "DoLog", "DoPanic", "DoWrite", "DoAlloc"])
+    must_pass(r, "MCLimits", required=["DoCall", "DoRet", "DoEmit", "DoLog", "DoPanic", "DoWrite", "DoAlloc", "DoIWrite", "DoSWrite", "DoFWrite"])
     ctx.add_tlc(r)
     tlc_must_pass(g, "GenLimits")
     ctx.add_tlc(g)
@@ -99,8 +99,20 @@ def C49(ctx):
             if cm[cls] == 0:
                 raise ToolError("vacuous case universe: no %s case whose expected outcome is %s" % (m, cls))
         kinds = {o["op"] for c in cases if c["mode"] == m for o in c["prog"]}
-        if kinds != {"call", "ret", "emit", "log", "write", "alloc", "panic"}:
+        if kinds != {"call", "ret", "emit", "log", "write", "alloc", "panic", "iwrite", "swrite", "fwrite"}:
             raise ToolError("case universe of mode %s lacks op kinds: %s" % (m, kinds))
+        # the value-size limit at / one beyond through EVERY substate-write entry point (KV entry set, node creation,
+        # index insert, sorted-index insert, field write), the key-size limit through every keyed one
+        for ep in ("write", "alloc", "iwrite", "swrite", "fwrite"):
+            for want in ("ValueSize", ""):
+                if not any(c["mode"] == m and c["exp"]["err"] == want and c["prog"] and
+                           c["prog"][min(c["exp"]["at"], len(c["prog"]) - 1) if want else -1 if c["prog"][-1]["op"] == ep else 0]["op"] == ep
+                           and (want or any(o["op"] == ep and o["n"] == c["cfg"]["value"] for o in c["prog"]))
+                           for c in cases):
+                    raise ToolError("no %s case driving the value limit (%s) through entry point %s" % (m, want or "at the limit, accepted", ep))
+        for ep in ("write", "iwrite", "swrite"):
+            if not any(c["mode"] == m and c["exp"]["err"] == "KeySize" and c["prog"][c["exp"]["at"]]["op"] == ep for c in cases):
+                raise ToolError("no %s case exceeding the key limit through entry point %s" % (m, ep))
     ctx.sample({"case": next(c for c in cases if c["exp"]["err"] == "CallDepth" and c["mode"] == "fee")})
     ctx.sample({"case": next(c for c in cases if c["exp"]["err"] == "TrackBytes" and len(c["prog"]) > 2)})
     ctx.sample({"case": next(c for c in cases if c["exp"]["status"] == "success" and len(c["prog"]) > 3)})
@@ -171,10 +183,12 @@ def C49(ctx):
         + len({json.dumps([e["cfg"], e.get("prog", e.get("calls"))], sort_keys=True) for e in evs})
     return {"exhaustive": False, "distinct_nontrivial": distinct, "cases_by_expected_outcome": dict(by_cls),
             "engine_answers": answers, "random_program_outcomes": dict(rnd), "environment_footprint": env,
-            "rule": "S: TLC explores every program of <= %d ops over 7 op kinds x 2 sizes under 32 configurations of a scaled "
+            "rule": "S: TLC explores every program of <= %d ops over 10 op kinds x 2 sizes under 32 configurations of a scaled "
                     "instance: no running state beyond a limit, an op fails with a limits error iff performing it would exceed "
                     "a limit, the error names that limit, the Outcome function agrees with the machine. G: TLC enumerates "
-                    "(transaction shape fee/no-fee) x (per limit: programs ending at limit-1/limit/limit+1; byte counters: limit "
+                    "(transaction shape fee/no-fee) x (per limit: programs ending at limit-1/limit/limit+1, the value-size limit through every "
+                    "substate-write entry point - KV entry set, node creation, index insert, sorted-index insert, field write - and the key-size "
+                    "limit through KV / index / sorted-index keys; byte counters: limit "
                     "one below/at/one above every threshold of the program) x (all ordered pairs of 12 limit probes at/beyond%s) x "
                     "(protocol default configuration at its real values) with the expected outcome (status, error class, index "
                     "of the failing op); each case executed on a LedgerSimulator through a native test blueprint under "
@@ -183,7 +197,7 @@ def C49(ctx):
                     "unit-level boundary product (key kind x key/value/heap/track limit x one below/at/one above x reached by insert / update / re-insert after removal / two entries / with the other counter at its limit) "
                     "validated by TraceLimits.tla (observed outcome = Outcome; a successful run shows exactly the program's events and logs "
                     "and every count/size within the configured limits). distinct = distinct (shape, configuration, program) cases + distinct recorded runs"
-                    % (4 if q else 5, "" if q else "; all ordered triples", n, units)}
+                    % (3 if q else 4, "" if q else "; all ordered triples", n, units)}
 
 
 # ---------------------------------------------------------------------------------------------
@@ -227,7 +241,10 @@ def _validate_graph_traces(ctx, evs, key, what, procs=4):
             ctx.cov["traces_validated_against_impl"] += sum(1 for e in ch if e.get("a") == "reset")
             continue
         ev = ch[idx - 1] if idx and 0 < idx <= len(ch) else {}
-        k = "%s:%s" % (key, r.violated or ("checker" if ev.get("checker") == "ran" and (ev.get("kernel"), ev.get("system")) != ("ok", "ok") else "rejected"))
+        if not r.violated and ev.get("a") == "commit" and ev.get("expect", "any") not in ("any", ev.get("outcome")):
+            k = "%s:catalogue program expected %s, engine %s" % (key, ev["expect"], ev["outcome"])
+        else:
+          k = "%s:%s" % (key, r.violated or ("checker" if ev.get("checker") == "ran" and (ev.get("kernel"), ev.get("system")) != ("ok", "ok") else "rejected"))
         ctx.violation(k, "%s: graph trace rejected at event %s (%s): %s" % (what, idx, r.violated, json.dumps(ev)[:400]),
                       {"trace_module": "TraceNodeGraph", "first_unmatched": idx, "tlc_violated": r.violated,
                        "context": ch[max(0, (idx or 1) - 3):(idx or 1)]})
